@@ -480,6 +480,14 @@ def mk_op(op, a, b, ty, cons):
         m = _vs_op(op, vs_of(a, cons), vs_of(b, cons))
         if not m.empty() and m.subset(ty_vs(ty)) and m.lo > -INF and m.hi < INF:
             t = ('op', op, a, b, None)     # no wrap-around possible: exact
+    # exact (x +/- c0) +/- c1  ->  x +/- (c0 +/- c1); in particular (x + 32) - 32 -> x
+    if t[4] is None and op in ('Add', 'Sub') and b[0] == 'c' and a[0] == 'op' and a[1] in ('Add', 'Sub') and a[4] is None and a[3][0] == 'c':
+        k0 = a[3][1] if a[1] == 'Add' else -a[3][1]
+        k1 = b[1] if op == 'Add' else -b[1]
+        k = k0 + k1
+        if k == 0:
+            return a[2]
+        return ('op', 'Add' if k > 0 else 'Sub', a[2], C(abs(k)), None)
     return t
 
 
@@ -492,6 +500,13 @@ def mk_cmp(op, a, b, cons):
     v = vs_of(t, cons)
     if v.single():
         return C(v.lo)
+    # two differently spelled terms for the same number (bit provenance): (w >> 7) & 0x1f of w = tag | n << 7 | v is n
+    if (a[0] in ('op', 'cast') or b[0] in ('op', 'cast')) and a[0] != 'c' and b[0] != 'c':
+        try:
+            if same_value(a, b, cons):
+                return C(int(op in ('eq', 'le', 'ge')))
+        except Exception:      # noqa
+            pass
     return t
 
 
